@@ -64,6 +64,7 @@ theorem PendOk.completions {d : RState} (h : PendOk d) : completions d.st d.pend
     cases hk : p.kind with
     | slow a b => rfl
     | run a b => rfl
+    | upl a b c => rfl
     | del i f => rw [hk] at this; simp [this.2]
     | cls i => rw [hk] at this; simp [this.2]
   have h2 : d.pend.filter (keepOf d.st) = d.pend := by
@@ -74,6 +75,7 @@ theorem PendOk.completions {d : RState} (h : PendOk d) : completions d.st d.pend
     cases hk : p.kind with
     | slow a b => rfl
     | run a b => rfl
+    | upl a b c => rfl
     | del i f => rw [hk] at this; simp [this.2]
     | cls i => rw [hk] at this; simp [this.2]
   rw [h1, h2]
@@ -108,8 +110,8 @@ theorem Sim.expire_id {cfg : Cfg} {d : RState} {m : Mon} (hs : Sim cfg d m) :
     by_cases hp : a.posts = 0
     · by_cases hT : cfg.timeout = 0
       · simp [hT]
-      · have hns : nsOf d.pend e.id = 0 := by rw [← (hrel.cnt hl).1]; exact hp
-        have hid := hrel.idle hl hns hT
+      · have hnu : nsOf d.pend e.id = 0 ∧ e.upl = 0 := by have := (hrel.cnt hl).1; omega
+        have hid := hrel.idle hl hnu.1 hnu.2 hT
         have := hk.notDue _ hid
         rw [hs.now]
         have h4 : decide (a.idleSince + cfg.timeout ≤ d.st.now) = false := by simp; omega
